@@ -260,6 +260,57 @@ def run(ctx):
         if case.index % 97 == 0:
             ctx.sample({"ops": case.ops[:20]})
 
+    def ctor_forms(case):
+        """Constructor with every combination of size / initialized_size /
+        contents that it accepts: stored bytes = contents padded with zeros
+        or truncated to initialized_size; size defaults to len(contents)."""
+        rnd = case.rnd
+        for _ in range(12):
+            ctx.count("cases")
+            c = bytes(rnd.randrange(1, 256) for _ in range(rnd.randint(0, 9)))
+            size = rnd.choice([None, len(c), len(c) + rnd.randint(0, 5),
+                               rnd.randint(0, 12)])
+            init = rnd.choice([None, len(c), rnd.randint(0, 14)])
+            kw = {}
+            if size is not None:
+                kw["size"] = size
+            if init is not None:
+                kw["initialized_size"] = init
+            kw["contents"] = rnd.choice([bytes, bytearray])(c)
+            eff_size = len(c) if size is None else size
+            eff_init = len(c) if init is None else init
+            case.ops = [{"ctor": {k: (v if isinstance(v, int) else len(v))
+                                  for k, v in kw.items()}}]
+            try:
+                bi = gt.ByteInterval(**kw)
+            except ValueError:
+                if eff_init <= eff_size:
+                    raise Discrepancy(
+                        "C19", "ctor-rejects-valid-sizes",
+                        "ByteInterval(size=%r, initialized_size=%r, %d "
+                        "content bytes) raised ValueError" % (
+                            size, init, len(c)), {})
+                ctx.count("ctor_rejects")
+                continue
+            if eff_init > eff_size:
+                raise Discrepancy(
+                    "C19", "ctor-accepts-more-bytes-than-size",
+                    "ByteInterval(size=%r, initialized_size=%r, %d content "
+                    "bytes) was accepted" % (size, init, len(c)), {})
+            want = (c + b"\0" * eff_init)[:eff_init]
+            ctx.count("ctor_forms_checked")
+            if (bi.size, bi.initialized_size, bytes(bi.contents)) != (
+                    eff_size, eff_init, want):
+                raise Discrepancy(
+                    "C19", "ctor-stored-bytes",
+                    "ByteInterval(size=%r, initialized_size=%r, contents=%r)"
+                    " has size %r, initialized_size %r, contents %r; "
+                    "expected %r, %r, %r" % (
+                        size, init, c, bi.size, bi.initialized_size,
+                        bytes(bi.contents), eff_size, eff_init, want), {})
+
+    for case in ctx.cases("ctor", ctx.params.get("n_neg", 40)):
+        ctx.run_case(case, ctor_forms)
     for case in ctx.cases("bytes", ctx.params.get("n_hist", 300)):
         ctx.run_case(case, one)
     for case in ctx.cases("neg", ctx.params.get("n_neg", 40)):
